@@ -205,6 +205,75 @@ func implParseBytes(a []int64) []int64 {
 	return []int64{1}
 }
 
+// tag 97: args = option bits, method, length of the first document, bytes of both documents
+// -> [1] when the method returned (or a document was rejected).  Objects obtained from Parse may
+// carry coordinates no constructor case has: 1e999 is accepted and becomes +Inf.
+func implParsePair(a []int64) []int64 {
+	n := int(a[2])
+	ba, bb := make([]byte, n), make([]byte, len(a)-3-n)
+	for i := range ba {
+		ba[i] = byte(a[3+i])
+	}
+	for i := range bb {
+		bb[i] = byte(a[3+n+i])
+	}
+	A, ea := geojson.Parse(string(ba), mkParseOpts(a[0]))
+	B, eb := geojson.Parse(string(bb), mkParseOpts(a[0]))
+	if ea != nil || eb != nil {
+		return []int64{1}
+	}
+	callMethod(int(a[1]%32), A, B)
+	return []int64{1}
+}
+
+// documents whose numerals include the extremes of float64 and beyond
+var extremeNums = []string{"0", "1", "2", "3", "-1", "0.5", "1e999", "-1e999", "1e308", "-1e308", "1.7976931348623157e308",
+	"5e-324", "1e-999", "-0", "179.99999999999997", "90"}
+
+func extremeDoc(rng *rand.Rand) string {
+	num := func() string {
+		if rng.Intn(3) == 0 {
+			return extremeNums[6+rng.Intn(len(extremeNums)-6)]
+		}
+		return extremeNums[rng.Intn(6)]
+	}
+	pos := func() string { return "[" + num() + "," + num() + "]" }
+	line := func(n int) string {
+		var ps []string
+		for i := 0; i < n; i++ {
+			ps = append(ps, pos())
+		}
+		return "[" + strings.Join(ps, ",") + "]"
+	}
+	ring := func() string {
+		n := 3 + rng.Intn(3)
+		var ps []string
+		for i := 0; i < n; i++ {
+			ps = append(ps, pos())
+		}
+		ps = append(ps, ps[0])
+		return "[" + strings.Join(ps, ",") + "]"
+	}
+	switch rng.Intn(6) {
+	case 0:
+		return `{"type":"Point","coordinates":` + pos() + `}`
+	case 1:
+		return `{"type":"MultiPoint","coordinates":` + line(1+rng.Intn(3)) + `}`
+	case 2, 3:
+		return `{"type":"LineString","coordinates":` + line(2+rng.Intn(3)) + `}`
+	case 4:
+		return `{"type":"Polygon","coordinates":[` + ring() + `]}`
+	default:
+		return `{"type":"Feature","geometry":{"type":"Polygon","coordinates":[` + ring() + `,` + ring() + `]},"properties":{}}`
+	}
+}
+
+// pairs that did not return on the pinned tree (Segment.Raycast's Nextafter loop at +Inf): run first
+var c05corpus = [][2]string{
+	{`{"type":"LineString","coordinates":[[0,1e999],[1,1e999]]}`, `{"type":"LineString","coordinates":[[0.5,1e999],[2,1e999]]}`},
+	{`{"type":"Polygon","coordinates":[[[0,0],[4,0],[4,1e999],[0,1e999],[0,0]]]}`, `{"type":"LineString","coordinates":[[1,1e999],[2,1e999]]}`},
+}
+
 func degenerateLeaf(rng *rand.Rand) *otree {
 	p := func() ipt { return ipt{rng.Int63n(7) - 3, rng.Int63n(7) - 3} }
 	switch rng.Intn(14) {
@@ -321,6 +390,26 @@ func streamC05(w *W, rng *rand.Rand, tier string) {
 			do(95, args, "method:"+fmt.Sprint(m%32))
 		}
 	}
+	// methods on pairs of parsed documents with extreme numerals (accepted overflow = +Inf)
+	pairArgs := func(m int, da, db string) []int64 {
+		args := []int64{0, int64(m), int64(len(da))}
+		for i := 0; i < len(da); i++ {
+			args = append(args, int64(da[i]))
+		}
+		for i := 0; i < len(db); i++ {
+			args = append(args, int64(db[i]))
+		}
+		return args
+	}
+	for _, c := range c05corpus {
+		for m := 0; m < nRobustMethods; m++ {
+			do(97, pairArgs(m, c[0], c[1]), "parsed-pair-corpus")
+			do(97, pairArgs(m, c[1], c[0]), "parsed-pair-corpus")
+		}
+	}
+	for it := 0; it < n/2; it++ {
+		do(97, pairArgs(rng.Intn(nRobustMethods), extremeDoc(rng), extremeDoc(rng)), "parsed-pair-extreme")
+	}
 	// Parse on arbitrary bytes, mutated documents, deep nesting
 	g := &jgen{rng: rng, s: 0}
 	maxDepth := 300
@@ -383,5 +472,6 @@ func objInDomR(o *otree) bool {
 func init() {
 	impls[95] = implRobust
 	impls[96] = implParseBytes
+	impls[97] = implParsePair
 	streams["C05"] = streamC05
 }
